@@ -124,16 +124,20 @@ Section In.
   Definition items_in (m : kvs) : bool := forallb kv_in m.
 End In.
 
+Definition ospan_none (o : ospan) : bool := match o with None => true | Some _ => false end.
+
 (* ---- nesting ------------------------------------------------------------------------------------ *)
 (* the span of a key: its repr *)
 Definition kspan_in (lo hi : N) (k : key) : bool := oraw_in lo hi (k_repr k).
-Definition window (o : ospan) (lo hi : N) : N * N := match o with Some sp => sp | None => (lo, hi) end.
 
 (* Values.  An array or a braces-delimited inline table has a span, and EVERYTHING stored inside it
    (elements, their decor, keys, trailing text) lies inside that span.  An inline table made of a
    dotted key (`a.b = 1` inside braces) spans from its first key to the end of its last value; the
    reprs of its keys and the spans of its values lie inside (decor such as the blanks after the last
-   value does not).  Recursively. *)
+   value does not).  Recursively.  (An implicit inline table is one made of a dotted key.) *)
+Definition dnest (a b : N) (items : list (key * item)) : bool :=
+  forallb (fun kv => kspan_in a b (fst kv) && osp_in a b (item_span (snd kv))) items.
+
 Fixpoint vnest (v : value) : bool :=
   match v with
   | VScalar _ _ _ => true
@@ -142,28 +146,38 @@ Fixpoint vnest (v : value) : bool :=
     | Some (a, b) => forallb (item_in a b) vals && raw_in a b tr
     | None => false
     end && forallb inest vals
-  | VInline items pre _ dt _ sp =>
+  | VInline items pre im dt _ sp =>
     match sp with
-    | Some (a, b) =>
-      if dt then forallb (fun kv => kspan_in a b (fst kv) && osp_in a b (item_span (snd kv))) items
-      else forallb (kv_in a b) items && raw_in a b pre
+    | Some (a, b) => if dt then dnest a b items else forallb (kv_in a b) items && raw_in a b pre
     | None => false
-    end && forallb (fun kv => inest (snd kv)) items
+    end && (negb im || dt) && forallb (fun kv => inest (snd kv)) items
   end
 with inest (it : item) : bool :=
   match it with
   | IValue v => vnest v
-  | _ => true
+  | _ => false
   end.
 
 (* Tables.  Where a table has a span, the repr of every key holding a value, that value's span, and
    every table made of a dotted key (with its key) directly below it lie inside the table's span;
    tables opened by their own header are not nested in their parent's span (`[a]` ... `[a.b]`), nor
-   are implicit tables (no span).  Elements of an array of tables lie inside the array's span. *)
+   are implicit super-tables (they have no span).  The elements of an array of tables (which are never
+   tables made of dotted keys) lie inside the array's span, which starts where its first element starts. *)
+Definition aot_nest (spans : list ospan) (asp : ospan) : bool :=
+  match asp with
+  | Some (a, b) =>
+    match spans with
+    | Some (x, _) :: _ => (x =? a)%N
+    | _ => false
+    end && forallb (osp_in a b) spans
+  | None => true
+  end.
+
 Fixpoint tnest (t : tbl) : bool :=
   match t with
-  | Tbl items _ _ _ _ sp =>
-    forallb (fun kv =>
+  | Tbl items _ im dt _ sp =>
+    (negb (im && negb dt) || ospan_none sp)
+    && forallb (fun kv =>
                match snd kv with
                | INone => true
                | IValue v =>
@@ -179,10 +193,7 @@ Fixpoint tnest (t : tbl) : bool :=
                        end
                   else true) && tnest sub
                | IAot ts asp =>
-                 match asp with
-                 | Some (a, b) => forallb (fun e => osp_in a b (t_span e)) ts
-                 | None => true
-                 end && forallb tnest ts
+                 aot_nest (map t_span ts) asp && forallb (fun e => negb (t_dotted e)) ts && forallb tnest ts
                end) items
   end.
 
@@ -192,7 +203,6 @@ Definition oraw_nospan (o : option raw) : bool := match o with Some r => raw_nos
 Definition decor_nospan (d : decor) : bool := oraw_nospan (d_prefix d) && oraw_nospan (d_suffix d).
 Definition key_nospan (k : key) : bool :=
   oraw_nospan (k_repr k) && decor_nospan (k_leaf k) && decor_nospan (k_dotted k).
-Definition ospan_none (o : ospan) : bool := match o with None => true | Some _ => false end.
 
 Fixpoint value_nospan (v : value) : bool :=
   match v with
